@@ -8,7 +8,7 @@ import re
 from hypothesis import assume
 from hypothesis import strategies as st
 
-from ..core import Facet, Violation
+from ..core import Facet, Violation, attributed
 from ..ref import cif as ref
 
 PROPERTY = "C14"
@@ -721,9 +721,11 @@ def apply_op(cif_, state, o):
     if op == "authors":
         persons = []
         for p in o["persons"]:
-            persons.append(metadata.Person(name=p["name"], orcid_id=None if p["orcid"] is None else orcid(p["orcid"]),
-                                           corresponding=p["corresponding"], role=p["role"], address=p["address"],
-                                           email=p["email"]))
+            oid = None if p["orcid"] is None else orcid(p["orcid"])
+            # the ORCID iD carries a correct ISO 7064 mod 11-2 check digit: the author must be accepted
+            with attributed(f"metadata.Person(name=..., orcid_id={oid!r}) with a valid ORCID iD"):
+                persons.append(metadata.Person(name=p["name"], orcid_id=oid, corresponding=p["corresponding"],
+                                               role=p["role"], address=p["address"], email=p["email"]))
         state.authors += list(zip(o["persons"], persons, strict=True))
         return cif_.with_authors(*persons)
     if op == "beamline":
